@@ -356,7 +356,9 @@ class Precondition:
         :param old_to_new_param_names:
         :return:
         """
-        for _, condition in self:
+        # iterating over the operands themselves (and not over the flattened view) so that the
+        # (in)equalities of nested conditions are renamed as well.
+        for condition in self.operands:
             if isinstance(condition, Predicate):
                 condition.change_signature(old_to_new_param_names)
 
